@@ -2518,6 +2518,13 @@ impl<'a> Socket<'a> {
             // can't actually do anything.
             self.timer.set_for_idle(cx.now(), self.keep_alive);
 
+            // Nothing can be retransmitted into a closed window: probe it, or the
+            // connection stalls forever if the window update gets lost.
+            if self.remote_win_len == 0 && !self.tx_buffer.is_empty() {
+                let delay = self.rtte.retransmission_timeout();
+                self.timer.set_for_zero_window_probe(cx.now(), delay);
+            }
+
             // Inform RTTE, so that it can avoid bogus measurements.
             self.rtte.on_retransmit();
         }
